@@ -22,8 +22,7 @@ RULE = ("Hypothesis-generated schedule programs: 2-8 threads, each a list of {cr
         "all-run, mixed); in 1 of 4 schedules an extra thread replays another thread's program without barriers (twin histories). Each "
         "schedule is executed by the ThreadSanitizer build (1 sequential + 3 concurrent processes) and by the release build (1 sequential, "
         "2x reverse-order sequential, one solo process per thread, 3 concurrent processes x 10 iterations). Excluded by construction and "
-        "counted (known findings): TRANSPORT runs in more than one thread of a schedule; LoadDatabase on an instance that has integrated "
-        "KINETICS. Non-trivial = a ThreadSanitizer-instrumented concurrent execution of the schedule had >=2 threads inside library calls at "
+        "counted (known finding): TRANSPORT runs in more than one thread of a schedule (one thread per schedule may run them). Non-trivial = a ThreadSanitizer-instrumented concurrent execution of the schedule had >=2 threads inside library calls at "
         "the same time AND >=1 create/destroy overlapping a run (relaxed atomic counters in the harness); distinct by SHA-256 of the case")
 ASSUMPTIONS = ["ThreadSanitizer (clang 14, -O1) reports every happens-before violation on the paths a schedule executes, and only those; paths "
                "and interleavings not executed by a sampled schedule are not covered (schedules are sampled, not enumerated)",
@@ -43,7 +42,7 @@ LEVEL_TEXT = ("Exploration: each run executes 64 (quick) to about 1200 (thorough
               "and, with 10x the volume, in the release build; every instance's observations (tables bitwise, all strings and files) must be "
               "the same whether its thread ran alone, sequentially, or concurrently with up to 7 others, in every repetition, and ids must be "
               "unique and never reused. Limits: schedules and interleavings are sampled; TSan sees only executed paths; the qsort lock cannot "
-              "be observed on glibc; concurrent TRANSPORT runs and reload-after-kinetics are excluded (known findings).")
+              "be observed on glibc; TRANSPORT runs in two threads at once are excluded (known finding: transport.cpp file-scope globals).")
 FLOORS = {"quick": 40, "thorough": 600}
 _NSH = os.environ.get("VERIF_C06_SHARDS")       # development only: fewer worker processes on a shared machine (same total budget)
 SHARDS = {"quick": int(_NSH) if _NSH else 8, "thorough": int(_NSH) if _NSH else 16}
@@ -53,6 +52,7 @@ TIMEOUT = float(os.environ.get("VERIF_C06_TIMEOUT", "300"))     # generous: a ha
 TSAN_OPTS = ("halt_on_error=0 exitcode=66 report_signal_unsafe=0 second_deadlock_stack=1 history_size=4 "
              "symbolize=1 external_symbolizer_path=/usr/bin/llvm-symbolizer")
 SUPP = os.path.join(os.path.dirname(os.path.abspath(__file__)), "..", "c06_tsan.supp")
+REPORT_LIMIT = 30.0    # a TSan process that has printed a report is not waited for longer than this
 TSAN_CONC = 3          # concurrent executions under ThreadSanitizer per schedule
 REL_CONC = 3           # concurrent release-build processes per schedule ...
 REL_ITERS = 10         # ... each repeating the schedule this many times
@@ -78,8 +78,6 @@ class _T:
         self.ops, self.live, self.nslot = [], {}, 0
         self.transport_ok = transport_ok     # known finding C06-transport-globals: TRANSPORT runs are confined to one thread
         self.excluded = 0
-        self.kin = set()                     # slots whose instance has run a KINETICS workload (known finding C06-rates-map)
-        self.excluded_reload = 0
 
 
 def _mask(draw):
@@ -101,11 +99,6 @@ def _create(draw, t):
 
 
 def _load(draw, t, s):
-    if s in t.kin:
-        # known finding C06-rates-map: LoadDatabase on an instance that has integrated KINETICS leaves dangling keys in
-        # Phreeqc::rates_map; excluded by construction (the instance keeps its database), counted
-        t.excluded_reload += 1
-        return
     db = draw(st.sampled_from(wl.DB_WEIGHTED))
     t.ops.append({"op": "load", "s": s, "db": db, "via": draw(st.sampled_from(["file", "file", "string"]))})
     t.live[s] = db
@@ -121,10 +114,7 @@ def _run(draw, t, s, heavy=False):
     if not t.transport_ok:
         names = [n for n in names if n not in wl.TRANSPORT_WL]
         t.excluded += 1      # a draw from which the transport workloads were struck (exclusion by construction, counted)
-    w = draw(st.sampled_from(names))
-    if w in wl.KINETICS_WL:
-        t.kin.add(s)
-    t.ops.append({"op": "run", "s": s, "wl": w, "p": draw(st.integers(0, wl.NPARAM - 1)),
+    t.ops.append({"op": "run", "s": s, "wl": draw(st.sampled_from(names)), "p": draw(st.integers(0, wl.NPARAM - 1)),
                   "via": draw(st.sampled_from(["string", "string", "file", "accum"]))})
 
 
@@ -135,7 +125,6 @@ def _read(t, s):
 def _destroy(t, s):
     t.ops.append({"op": "destroy", "s": s})
     del t.live[s]
-    t.kin.discard(s)
 
 
 def _pick_live(draw, t):
@@ -253,7 +242,7 @@ def case_strategy(draw):
         src = draw(st.sampled_from(cand))
         threads.append([dict(o) for o in threads[src] if o["op"] != "bar"])
     return {"kind": "sched", "threads": threads, "barriers": counts, "patterns": patterns + (["twin_thread"] if twin else []),
-            "excluded_transport_draws": sum(t.excluded for t in T), "excluded_reloads": sum(t.excluded_reload for t in T)}
+            "excluded_transport_draws": sum(t.excluded for t in T)}
 
 
 # ------------------------------------------------------------------------------- schedule rendering
@@ -276,6 +265,8 @@ def render(case, sd):
                 L.append("set %d %x" % (o["s"], o["mask"]))
             elif k == "run":
                 key = "%s_%d" % (o["wl"], o["p"])
+                if "text" in o:        # saved cases carry their input text (independent of the corpus)
+                    key += "_" + hashlib.sha256(o["text"].encode()).hexdigest()[:8]
                 if key not in files:
                     files[key] = os.path.join(sd, "w_%s.pqi" % key)
                     with open(files[key], "w") as f:
@@ -380,8 +371,10 @@ def all_blocked(a, b):
     return nfutex >= 1
 
 
-def run_watched(cmd, wd, env, limit):
-    """-> (returncode | None, stderr text, verdict) with verdict in {"done", "blocked", "slow"}"""
+def run_watched(cmd, wd, env, limit, report_limit=None):
+    """-> (returncode | None, stderr text, verdict) with verdict in {"done", "blocked", "slow", "reported"}.
+    "reported": the process had already written a sanitizer report and was still running after report_limit seconds (a race
+    that corrupted a container can make the process spin); the report is the evidence, the time only ends the wait."""
     errp = os.path.join(wd, "stderr.txt")
     with open(errp, "wb") as ef:
         p = subprocess.Popen(cmd, cwd=wd, env=env, stdout=subprocess.DEVNULL, stderr=ef, start_new_session=True)
@@ -396,9 +389,12 @@ def run_watched(cmd, wd, env, limit):
             cur = sample_threads(p.pid)
             still = still + 1 if all_blocked(prev, cur) else 0
             prev = cur
+            el = time.monotonic() - t0
             if still >= BLOCKED_SAMPLES:
                 verdict = "blocked"
-            elif time.monotonic() - t0 > limit:
+            elif report_limit is not None and el > report_limit and _has_report(errp):
+                verdict = "reported"
+            elif el > limit:
                 verdict = "slow"
             if verdict != "done":
                 try:
@@ -410,6 +406,14 @@ def run_watched(cmd, wd, env, limit):
     with open(errp, "rb") as f:
         err = f.read().decode("latin-1")
     return (p.returncode if verdict == "done" else None), err, verdict
+
+
+def _has_report(path):
+    try:
+        with open(path, "rb") as f:
+            return b"WARNING: ThreadSanitizer" in f.read()
+    except OSError:
+        return False
 
 
 def execute(ctx, variant, sched, sd, tag, args, full=False):
@@ -428,9 +432,14 @@ def execute(ctx, variant, sched, sd, tag, args, full=False):
             env["TSAN_OPTIONS"] = opts
         cmd = [binpath(variant)] + args + (["--full", os.path.join(wd, "full")] if full else []) + ["--out", out, sched]
         r = Res()
-        r.rc, r.stderr, verdict = run_watched(cmd, wd, env, TIMEOUT)
+        r.rc, r.stderr, verdict = run_watched(cmd, wd, env, TIMEOUT, REPORT_LIMIT if variant == "tsan" else None)
         r.hung = verdict != "done"
         ctx._beat = time.time()
+        if verdict == "reported":
+            ctx.event("killed_after_sanitizer_report")
+            r.recs, r.stats, r.ids, r.complete = {}, [], [], False
+            shutil.rmtree(wd, ignore_errors=True)
+            return r
         if verdict == "slow":
             ctx.event("timeout_inconclusive")
             raise Discard("inconclusive: a harness execution was still running (consuming CPU) after %.0f s" % TIMEOUT)
@@ -601,30 +610,36 @@ _after_fail = [0]      # evaluations spent after the first violation of this pro
 
 
 def check_case(case, ctx):
+    # Hypothesis identifies a failure by exception type + raising line (+ exception context): every verdict is therefore
+    # raised from the two lines below, outside any except block, and one process gives one verdict per case (memo).
+    v = _verdict(case, ctx)
+    if isinstance(v, Violation):
+        raise Violation(v.oracle, v.msg, v.detail)
+    if isinstance(v, Discard):
+        raise Discard(v.why)
+    return v
+
+
+def _verdict(case, ctx):
     h = sha(case)
-    if h in _memo:         # Hypothesis re-executes a failing case; the verdict of one process is per case
-        v = _memo[h]
-        if isinstance(v, Violation):
-            raise Violation(v.oracle, v.msg, v.detail)
-        if isinstance(v, Discard):
-            raise Discard(v.why)
-        return v
+    if h in _memo:
+        return _memo[h]
     failed_before = any(isinstance(v, Violation) for v in _memo.values())
     if failed_before and ctx.tier != "replay":
         # shrinking re-evaluates a whole schedule (seconds) per attempt: bounded by a count, the smallest failing case so far is kept
         _after_fail[0] += 1
         if _after_fail[0] > SHRINK_EVALS:
-            raise Discard("not evaluated: shrink budget of %d evaluations after a violation is used up" % SHRINK_EVALS)
+            return Discard("not evaluated: shrink budget of %d evaluations after a violation is used up" % SHRINK_EVALS)
     try:
-        info = _check(case, ctx)
-    except Violation as v:
-        _memo[h] = v
-        raise
-    except Discard as d:
-        _memo[h] = d
-        raise
-    _memo[h] = info
-    return info
+        v = _check(case, ctx)
+    except Violation as e:
+        v = e
+        if e.oracle == "deadlock":      # every further evaluation would block for minutes: keep the case as found
+            _after_fail[0] = SHRINK_EVALS
+    except Discard as e:
+        v = e
+    _memo[h] = v
+    return v
 
 
 def _check(case, ctx):
@@ -638,19 +653,17 @@ def _check(case, ctx):
         classes = ["threads=%d" % n] + ["barrier:" + p for p in sorted(set(case.get("patterns", [])))]
         if case.get("excluded_transport_draws"):
             ctx.event("excluded_by_construction:transport_in_second_thread(draws)", case["excluded_transport_draws"])
-        if case.get("excluded_reloads"):
-            ctx.event("excluded_by_construction:reload_after_kinetics(ops)", case["excluded_reloads"])
         # ---- (a) ThreadSanitizer build: sequential reference, then concurrent executions
         tseq = execute(ctx, "tsan", sched, sd, "tseq", ["--mode", "seq"])
-        check_crash(tseq, "mt_tsan sequential")
         reps = tsan_reports(tseq)
         if reps:
             raise Violation("tsan", "ThreadSanitizer report in the *sequential* execution:\n" + first_report(reps))
+        check_crash(tseq, "mt_tsan sequential")
         check_ids(tseq, "tsan sequential")
         reft = tseq.recs[0]
         nrep, nexec, maxin, cdrun, loadrun, cc, rr = 0, 0, 0, 0, 0, 0, 0
         rep_first = None
-        want = 10 if replay else TSAN_CONC
+        want = int(case.get("replay_tsan", 6)) if replay else TSAN_CONC     # a saved case may ask for more volume when replayed
         k = 0
         while k < want:
             r = execute(ctx, "tsan", sched, sd, "tconc", ["--mode", "conc"])
@@ -666,6 +679,8 @@ def _check(case, ctx):
                     raise Violation("tsan", "ThreadSanitizer reported in %d of %d concurrent executions; library files involved: %s; "
                                     "signature: %s\n%s" % (nrep, nexec, ", ".join(os.path.basename(f) for f in library_frames(rep_first[0])),
                                                            report_signature(rep_first[0]), first_report(rep_first)))
+            if r.hung:          # killed after its report: nothing to compare
+                continue
             check_crash(r, "mt_tsan concurrent")
             compare(reft, r, "tsan concurrent #%d vs sequential" % k)
             check_ids(r, "tsan concurrent #%d" % k)
@@ -694,8 +709,7 @@ def _check(case, ctx):
             check_crash(rs, "mt_rel solo")
             compare(refr, rs, "rel thread %d alone in a fresh process vs sequential" % t, threads={t})
         rmax = 0
-        nconc = 5 if replay else REL_CONC
-        iters = REL_ITERS * (3 if replay else 1)
+        nconc, iters = [int(x) for x in case.get("replay_rel", [3, 20])] if replay else (REL_CONC, REL_ITERS)
         for k in range(nconc):
             r = execute(ctx, "rel", sched, sd, "rconc", ["--mode", "conc", "--iters", str(iters)])
             check_crash(r, "mt_rel concurrent")
